@@ -470,7 +470,7 @@ func main() {
 	mainWorkers := 4
 	// traces per worker; multiplied per configuration kind (kindFactor) because
 	// behaviours with a bad node are several times longer/wider than the others
-	mainNum := r.Pick(1200, 4000)
+	mainNum := r.Pick(1200, 2000)
 	probeNum := r.Pick(4000, 20000) // single worker
 	dlNum := r.Pick(2000, 20000)    // per worker, 2 workers (report-only InvDeadlock sample)
 	depth := 100
@@ -768,7 +768,7 @@ func evaluate(r *ev.Run, runs []*specRun, jobs []*job, thorough bool) {
 			r.Eval(m.Traces)
 			r.Count("configurations_run", 1)
 			r.Count("configurations_"+m.Cfg.Kind, 1)
-			if r.WantSample() && (m.Cfg.Shipped && sr.Idx == int(r.Seed)%len(specs) || m.Cfg.Kind == "fault" && sr.Idx == int(r.Seed+2)%len(specs)) {
+			if r.WantSample() && (m.Cfg.Shipped && sr.Idx == pick(r.Seed, 0) || m.Cfg.Kind == "fault" && sr.Idx == pick(r.Seed, 2)) {
 				r.Sample(map[string]any{"what": "invariant-checking simulation run", "spec": sr.Def.Name + "/" + sr.Def.File, "spec_sha256": sr.SHA,
 					"cfg": strings.Split(strings.TrimSpace(m.CfgText), "\n"), "tlc_summary": summaryLines(m.Out), "command": m.Cmd})
 			}
@@ -904,6 +904,12 @@ func evaluate(r *ev.Run, runs []*specRun, jobs []*job, thorough bool) {
 			r.Floor("states_checked", 5_000_000)
 		}
 	}
+}
+
+// pick selects a spec index from the seed (which runs are written out as samples).
+func pick(seed int64, off int64) int {
+	n := int64(len(specs))
+	return int(((seed+off)%n + n) % n)
 }
 
 func round1(f float64) float64 { return float64(int(f*10+0.5)) / 10 }
